@@ -35,6 +35,7 @@ def run_check(run, prop):
     distinct, nontrivial, handoffs = set(), 0, 0
     opkinds = {}
     first_dis = None
+    all_dis = []
     for case, model, res in zip(cases, models, results):
         ops, ps, sm, caching, cc = case
         key = json.dumps([ops, ps, sm, caching, cc])
@@ -57,8 +58,20 @@ def run_check(run, prop):
             if model[3] != 1:
                 run.broken.append("model log fails its own monitor (theorem says impossible)")
             dis = S.compare(case, model, res)
-            if dis and first_dis is None:
-                first_dis = (case, model, res, dis)
+            if dis:
+                all_dis.append((case, model, res, dis))
+    # a disagreement is reported when it shows again on two immediate re-runs of the same case: the scripted clients are
+    # synchronised with pgcat's check-in through the pools' in-use count, which a loaded machine can miss (a timing
+    # artefact of the harness, counted below); a real difference between model and code is deterministic
+    run.cov["unreproduced_disagreements"] = 0
+    for case, model, res, dis in all_dis[:6]:
+        again = W.run_scenarios(wire, [S.scenario(*case, inuse=model[4]) for _ in range(2)], timeout=90)
+        rep = [S.compare(case, model, r2) for r2 in again]
+        if all(rep):
+            first_dis = (case, model, res, dis)
+            break
+        run.cov["unreproduced_disagreements"] += 1
+        run.log("disagreement not reproduced on re-run (%s): %s" % ([bool(x) for x in rep], dis[0]))
     if first_dis and not run.violations:
         case, model, res, dis = first_dis
         run.cov["disagreements_checked"] += 1
